@@ -20,7 +20,7 @@ RULES = {
 
 class QueryPlugin(Plugin):
     entry = 1
-    counts = {"quick": 1500, "thorough": 60000}
+    counts = {"quick": 1500, "thorough": 200000}
 
     def __init__(self):
         self.rule = RULES[self.pid]
